@@ -547,16 +547,16 @@ def run(ctx):
                       "the last buffer (%s) of a vectored write is not terminated by the newline literal on every path (or something is appended after it)" % ".".join(last),
                       "buffer %s ends with the `}\\n` literal appended at %s" % (".".join(last), where))
     ctx.floor("R02.4", "write_all_vectored call sites", nw, 2)
-    # ------------------------------------------------------------------ R02.7 success writes at least one line
+    # ------------------------------------------------------------------ R02.8 success writes at least one line
     # "one or more complete lines": every successful path of the emission sends at least one record (the analysis is C03's life-sign
     # clause; borrowed here because a success that wrote no byte at all is first of all a framing failure)
     from mq.report import RuleView
     if not isinstance(ctx, RuleView):
         import rules.c03 as c03
         before7 = len(ctx.instances)
-        c03.run(RuleView(ctx, {"R03.6": "R02.7"}, only=lambda k: "every-success-writes-a-record" in k or "success exits of the emission body" in k))
-        ctx.floor("R02.7", "emission bodies judged for `every success writes a record`",
-                  len([i_ for i_ in ctx.instances[before7:] if i_["rule"] == "R02.7" and "every-success-writes-a-record" in i_["instance"]]), 1)
+        c03.run(RuleView(ctx, {"R03.6": "R02.8"}, only=lambda k: "every-success-writes-a-record" in k or "success exits of the emission body" in k))
+        ctx.floor("R02.8", "emission bodies judged for `every success writes a record`",
+                  len([i_ for i_ in ctx.instances[before7:] if i_["rule"] == "R02.8" and "every-success-writes-a-record" in i_["instance"]]), 1)
     return EXPL
 
 
